@@ -19,7 +19,7 @@ pub fn prop() -> Prop {
     Prop {
         id: "C11",
         level: "exploration",
-        rule: "(1) the complete control-template set: statement trees over {block, als, als/anders, counter loops running 0, 1 and 3 iterations, immediately applied function bodies} nested up to N nodes in which every statement position holds one of {numbered trace point, stop, volgende, antwoord, declaration, empty block, expression}, conditions drawn from {ja, nee, counter tests}, with als/zolang also used as values; each compared with the reference interpreter (trace = output, value, error). (2) residue: every loop-body template up to M nodes iterated 0, 1, 2, 100 and 70 000 times and followed by a probe suffix (a two-argument call, an array literal, a second loop) whose output must equal the model's. (1d) exits across function boundaries: every chain of up to 4 wrappers from {loop, function called on the spot} with one stop / volgende / antwoord before or after the inner wrapper at any level, optionally after a completed nested function definition and / or a completed loop (the exit belongs to the innermost loop of the same function, or the program is refused); (1c) deep chains: every sequence of 4 (quick) / 5 (thorough) nested control constructs from {als, als-anders with the hole in either branch, counter loop, loop on `ja`, block} around an innermost {trace, stop, volgende, antwoord, value}, a trace point before and after every level, all four truth assignments; (1b) sibling templates: a function whose body is a loop (literal `ja` or counter) around two statements S; T, each any depth-1 template, or around THREE statements from a 20-item set (every leaf and one-level branches around each exit), with and without a trailing value, called with all four truth assignments; (2b) condition-driven loops (the progress is made by an assignment, a call or a conjunction in the condition) around every body of <= 2 statements from {volgende, stop, trace, empty block, declaration, value, three branch shapes}, 0/1/3 iterations, as a statement and as an array element; (3) for every program, the abstract stack machine of its real bytecode (bcmc) must have no cycle that grows the stack. Non-trivial = contains a loop or a branch and is defined by the model; distinct = distinct texts",
+        rule: "(1) the complete control-template set: statement trees over {block, als, als/anders, counter loops running 0, 1 and 3 iterations, immediately applied function bodies} nested up to N nodes in which every statement position holds one of {numbered trace point, stop, volgende, antwoord, declaration, empty block, expression}, conditions drawn from {ja, nee, counter tests}, with als/zolang also used as values; each compared with the reference interpreter (trace = output, value, error). (2) residue: every loop-body template up to M nodes iterated 0, 1, 2, 100 and 70 000 times and followed by a probe suffix (a two-argument call, an array literal, a second loop) whose output must equal the model's. (1e) offset sweep: 26 small control programs (exits and declarations as the last statement of a branch / loop body / block / function body, loops and branches as values; top level and in a function) shifted through every code offset from 0 to 600 bytes; (1d) exits across function boundaries: every chain of up to 4 wrappers from {loop, function called on the spot} with one stop / volgende / antwoord before or after the inner wrapper at any level, optionally after a completed nested function definition and / or a completed loop (the exit belongs to the innermost loop of the same function, or the program is refused); (1c) deep chains: every sequence of 4 (quick) / 5 (thorough) nested control constructs from {als, als-anders with the hole in either branch, counter loop, loop on `ja`, block} around an innermost {trace, stop, volgende, antwoord, value}, a trace point before and after every level, all four truth assignments; (1b) sibling templates: a function whose body is a loop (literal `ja` or counter) around two statements S; T, each any depth-1 template, or around THREE statements from a 20-item set (every leaf and one-level branches around each exit), with and without a trailing value, called with all four truth assignments; (2b) condition-driven loops (the progress is made by an assignment, a call or a conjunction in the condition) around every body of <= 2 statements from {volgende, stop, trace, empty block, declaration, value, three branch shapes}, 0/1/3 iterations, as a statement and as an array element; (3) for every program, the abstract stack machine of its real bytecode (bcmc) must have no cycle that grows the stack. Non-trivial = contains a loop or a branch and is defined by the model; distinct = distinct texts",
         assumptions: &["the value of a loop that iterated is unspecified (U4) and never compared", "reference interpreter control-flow rules of DESIGN 4.2"],
         run,
         replay,
@@ -444,6 +444,61 @@ pub fn exit_scopes(f: &mut dyn FnMut(&[Stmt]) -> bool) -> bool {
     true
 }
 
+/// Offset sweep: a fixed set of small control programs (every exit as the last statement of a branch, of a loop
+/// body, of a block; a declaration as the last statement of a branch / loop body / function body; a loop as a
+/// value) shifted through EVERY code offset from 0 to 600 bytes by a prefix of 4-byte and 3-byte statements: every
+/// value of every operand byte of their jumps and slots occurs.
+pub fn offset_sweep(f: &mut dyn FnMut(&[Stmt]) -> bool) -> bool {
+    let lp = |body: Vec<Stmt>| -> Vec<Stmt> {
+        let mut b = vec![es(assign(id("i"), infix(id("i"), Operator::Add, int(1))))];
+        b.extend(body);
+        b.push(es(assign(id("s"), infix(id("s"), Operator::Add, id("i")))));
+        vec![let_("i", int(0)), let_("s", int(0)), es(whil(infix(id("i"), Operator::Lt, int(5)), b)), print1(array(vec![id("i"), id("s")]))]
+    };
+    let cond = || infix(id("i"), Operator::Eq, int(2));
+    let mut subjects: Vec<Vec<Stmt>> = vec![
+        lp(vec![es(iff(cond(), vec![Stmt::Continue], None))]),
+        lp(vec![es(iff(cond(), vec![Stmt::Break], None))]),
+        lp(vec![es(iff(cond(), vec![print1(int(7)), Stmt::Continue], Some(vec![print1(int(8))])))]),
+        lp(vec![es(iff(cond(), vec![print1(int(7))], Some(vec![Stmt::Continue])))]),
+        lp(vec![Stmt::Block(vec![es(iff(cond(), vec![Stmt::Continue], None))])]),
+        lp(vec![es(iff(cond(), vec![let_("q", int(1))], None))]),
+        lp(vec![es(iff(cond(), vec![let_("q", int(1))], Some(vec![let_("r", int(2))])))]),
+        lp(vec![Stmt::Block(vec![let_("q", int(1))])]),
+        vec![let_("i", int(0)), es(whil(infix(id("i"), Operator::Lt, int(3)), vec![es(assign(id("i"), infix(id("i"), Operator::Add, int(1)))), let_("q", id("i"))])), print1(id("i"))],
+        vec![es(func("f", &["x"], vec![es(iff(id("x"), vec![Stmt::Return(int(1))], None)), let_("q", int(2))])), print1(array(vec![calln("f", vec![boolean(true)]), calln("f", vec![boolean(false)])]))],
+        vec![es(func("f", &["x"], vec![let_("q", int(2)), es(iff(id("x"), vec![let_("r", id("q"))], Some(vec![Stmt::Return(id("q"))])))])), print1(array(vec![calln("f", vec![boolean(true)]), calln("f", vec![boolean(false)])]))],
+        vec![let_("v", iff(boolean(true), vec![let_("q", int(1))], Some(vec![es(int(2))]))), print1(id("v"))],
+        vec![let_("i", int(0)), let_("v", whil(infix(id("i"), Operator::Lt, int(0)), vec![es(int(1))])), print1(id("v"))],
+    ];
+    // the same inside a function (locals)
+    let top: Vec<Vec<Stmt>> = subjects.clone();
+    for t in top {
+        let mut body = t;
+        body.push(es(int(0)));
+        subjects.push(vec![es(func("host", &[], body)), print1(calln("host", vec![]))]);
+    }
+    for subject in &subjects {
+        for fours in 0..=150usize {
+            for threes in 0..4usize {
+                let mut prog: Vec<Stmt> = Vec::new();
+                for _ in 0..fours {
+                    prog.push(es(int(1)));
+                }
+                for _ in 0..threes {
+                    prog.push(es(prefix(Operator::Not, boolean(true))));
+                }
+                prog.extend(subject.iter().cloned());
+                renumber_prints(&mut prog);
+                if !f(&prog) {
+                    return false;
+                }
+            }
+        }
+    }
+    true
+}
+
 /// Deep chains: five control constructs nested in each other (every sequence over {als, als-anders with the
 /// hole in either branch, counter loop, loop on `ja`, block}) around an innermost leaf {trace, stop, volgende,
 /// antwoord, value}, a trace point before and after every level, inside a function called with all four
@@ -508,6 +563,14 @@ pub fn deep_chains(depth: usize, f: &mut dyn FnMut(&[Stmt]) -> bool) -> bool {
 }
 
 fn depth_family(sh: &mut Shard, tier: Tier) {
+    offset_sweep(&mut |prog| {
+        if sh.mine() {
+            sh.begin(&|| printer::program(prog));
+            sh.count("family:offset-sweep");
+            check_program(sh, "offset-sweep", prog, 4_000);
+        }
+        sh.running()
+    });
     exit_scopes(&mut |prog| {
         if sh.mine() {
             sh.begin(&|| printer::program(prog));
